@@ -5,6 +5,6 @@ set -u
 patch="$1"; pid="$2"; shift 2
 git -C /repo apply "$(realpath "$patch")" || { echo "patch does not apply"; exit 3; }
 cp /verif/evidence/$pid.json /verif/.work/evidence.$pid.bak 2>/dev/null
-trap 'git -C /repo checkout -- . ; cd /verif && /venv/bin/python tools/translate.py >/dev/null; cp /verif/.work/evidence.$pid.bak /verif/evidence/$pid.json 2>/dev/null' EXIT
+trap 'git -C /repo checkout -- . ; cd /verif && /venv/bin/python tools/translate.py >/dev/null; (cd /verif/lean && lake build drv >/dev/null 2>&1); cp /verif/.work/evidence.$pid.bak /verif/evidence/$pid.json 2>/dev/null' EXIT
 cd /verif && ./check "$pid" "$@"
 echo "exit=$?"
